@@ -38,12 +38,17 @@ class CountingSemaphore:
         self.value = n
         self.cv = threading.Condition()
         self.acquires = 0
+        self.refused = 0
         self.releases = 0
         self.max_value = n
         self.log = log
 
     def acquire(self, blocking=True, timeout=None):
+        # the threading.Semaphore contract: a non-blocking acquire on an exhausted semaphore returns False at once
         with self.cv:
+            if not blocking and self.value == 0:
+                self.refused += 1
+                return False
             while self.value == 0:
                 self.cv.wait()
             self.value -= 1
